@@ -14,12 +14,14 @@ use zipora::containers::specialized::{
 use zipora::fsa::cache::{CacheStrategy, FsaCache, FsaCacheConfig};
 
 const HEADER: &str = r#"From ZV.Common Require Import Base Run.
-From ZV.C17 Require Import Spec Model.
+From ZV.C17 Require Import Spec Model ModelInval.
 Open Scope N_scope.
 Inductive case_t : Type :=
 | CLru (cap : N) (ops : list (N * N * N)) (expect : list (list Z))
 | CCmap (percap : N) (nshards : nat) (route : list (N * N)) (ops : list (N * N * N)) (expect : list (list Z))
-| CPc (ps capbytes : N) (fs : list (N * (N * N))) (ops : list (N * N * N * N)) (expect : list (list N)).
+| CPc (ps capbytes : N) (fs : list (N * (N * N))) (ops : list (N * N * N * N)) (expect : list (list N))
+| CPx (ps capbytes : N) (fs : list (N * (N * N))) (ops : list (N * N * N * N)) (expect : list (list N))
+| CPs (ps capbytes : N) (fs : list (N * (N * N))) (ops : list (N * N * N * N)) (expect : list (list N)).
 Fixpoint eqb_llz (a b : list (list Z)) : bool :=
   match a, b with
   | [], [] => true
@@ -37,10 +39,16 @@ Definition ok (c : case_t) : bool :=
   | CLru cap ops expect => eqb_llz (lru_case cap ops) expect
   | CCmap percap n route ops expect => eqb_llz (cmap_case percap n route ops) expect
   | CPc ps capbytes fs ops expect => eqb_lln (pc_case ps capbytes fs ops) expect
+  | CPx ps capbytes fs ops expect => eqb_lln (px_case ps capbytes fs ops) expect
+  | CPs ps capbytes fs ops expect => eqb_lln (ps_case ps capbytes fs ops) expect
   end.
 "#;
 
-struct Ctx { sum: Summary, shards: CoqShards, terms: [Vec<(String, Value)>; 3], budget_lru: usize, budget_cmap: usize, budget_pc: usize, n_lru: usize, n_cmap: usize, n_pc: usize, tmp: String, fileno: u64 }
+struct Ctx { sum: Summary, shards: CoqShards, terms: Vec<Vec<(String, Value)>>, budget_lru: usize, budget_cmap: usize, budget_pc: usize, n_lru: usize, n_cmap: usize, n_pc: usize, tmp: String, fileno: u64,
+             /// budgets / counts of the cells modelled by the extension: 3 px (rewrite, close_file, read_with_prefetch), 4 ps (SingleLruPageCache), 5 blob, 6 round robin, 7 thread affinity
+             budget_x: [usize; 8], n_x: [usize; 8] }
+const T_PX: usize = 3;
+const T_PS: usize = 4;
 
 // ---------------------------------------------------------------------------------------------
 // the property, told as dumbly as possible: entries with the time of their last get/put
@@ -359,17 +367,20 @@ fn gen_ops(r: &mut Rng, nkeys: u64, n: usize) -> Vec<Op> {
 // ---------------------------------------------------------------------------------------------
 fn file_byte(seed: u64, i: u64) -> u8 { ((i * 31 + (i >> 8) * 7 + seed) & 255) as u8 }
 fn gen_file(seed: u64, len: u64) -> Vec<u8> { (0..len).map(|i| file_byte(seed, i)).collect() }
-fn digest(b: &[u8]) -> Vec<u128> {
+fn digest_vals(b: &[u128]) -> Vec<u128> {
     let mut acc: u128 = 0;
-    for (i, &x) in b.iter().enumerate() { acc += ((i as u128 % 251) + 1) * x as u128; }
+    for (i, &x) in b.iter().enumerate() { acc += ((i as u128 % 251) + 1) * x; }
     let mut d = vec![b.len() as u128, acc];
-    d.extend(b.iter().take(8).map(|&x| x as u128));
-    d.extend(b.iter().rev().take(8).map(|&x| x as u128));
+    d.extend(b.iter().take(8).copied());
+    d.extend(b.iter().rev().take(8).copied());
     d
 }
+fn digest(b: &[u8]) -> Vec<u128> { digest_vals(&b.iter().map(|&x| x as u128).collect::<Vec<_>>()) }
 
 type POp = (u8, u64, u64, u64); // 0 read f off len | 1 prefetch f off len | 2 invalidate_page f page | 3 invalidate_range f off len
-                                // 4 read_with_prefetch f off len (ahead = len) | 5 read_batch of this one read | 6 overwrite f off len (+ invalidate_range)
+                                // 4 read_with_prefetch f off len (ahead = len) | 5 read_batch of this one read (Single: read into a used buffer)
+                                // 6 overwrite f off len (+ invalidate_range of exactly that range) | 7 overwrite f off len only (somebody else rewrites the
+                                // file; the cache is told later, if at all) | 8 close_file f | 9 size() (Single only)
 
 fn pc_config(preset: u64, capbytes: usize) -> PageCacheConfig {
     let c = match preset { 1 => PageCacheConfig::performance_optimized(), 2 => PageCacheConfig::memory_optimized(), 3 => PageCacheConfig::security_optimized(), _ => PageCacheConfig::balanced() };
@@ -393,7 +404,8 @@ impl Pc {
                 _ => c.read(f, off, len).map(|b| b.data().to_vec()),
             },
             Pc::Single(c) => match how {
-                5 => { let mut b = zipora::cache::CacheBuffer::new(); c.read(f, off, len, &mut b).map(|_| b.data().to_vec()) }
+                // read(.., &mut buffer) replaces what the buffer held
+                5 => { let mut b = zipora::cache::CacheBuffer::from_data(vec![7u8; len.min(64)]); c.read(f, off, len, &mut b).map(|_| b.data().to_vec()) }
                 4 => c.prefetch(f, off + len as u64, len).and_then(|_| c.read_new(f, off, len)).map(|b| b.data().to_vec()),
                 _ => c.read_new(f, off, len).map(|b| b.data().to_vec()),
             },
@@ -402,12 +414,22 @@ impl Pc {
     fn prefetch(&self, f: u32, off: u64, len: usize) -> Result<(), String> { match self { Pc::Multi(c) => c.prefetch(f, off, len), Pc::Single(c) => c.prefetch(f, off, len) }.map_err(|e| format!("{:?}", e)) }
     fn inv_page(&self, f: u32, p: u32) -> Result<(), String> { match self { Pc::Multi(c) => c.invalidate_page(f, p), Pc::Single(c) => c.invalidate_page(f, p) }.map_err(|e| format!("{:?}", e)) }
     fn inv_range(&self, f: u32, off: u64, len: usize) -> Result<(), String> { match self { Pc::Multi(c) => c.invalidate_range(f, off, len), Pc::Single(c) => c.invalidate_range(f, off, len) }.map_err(|e| format!("{:?}", e)) }
+    fn close(&self, f: u32) -> Result<(), String> { match self { Pc::Multi(c) => c.close_file(f), Pc::Single(c) => c.close_file(f) }.map_err(|e| format!("{:?}", e)) }
 }
 
-/// files: (seed, len) per file; file ids are handed out 1,2,.. in order by the implementation (observed, not assumed)
+/// files: (seed, len) per file; file ids are handed out 1,2,.. in order by the implementation (observed, not assumed).
+/// The oracle works on bytes, not on pages: a byte returned by a read must be the byte the file holds now; only a byte
+/// that somebody rewrote without telling the cache (op 7) may still show a value it held since the last invalidation
+/// (invalidate_range / invalidate_page / close_file) that covered it.
 fn pc_history(cx: &mut Ctx, single: bool, preset: u64, capbytes: usize, files: &[(u64, u64)], ops: &[POp], force: bool) {
     let has_ow = ops.iter().any(|o| o.0 == 6);
-    let cell = if single { "SingleLruPageCache".to_string() } else if has_ow { "LruPageCache/overwrite+invalidate".to_string() } else { format!("LruPageCache/{}", ["balanced", "performance", "memory", "security"][(preset % 4) as usize]) };
+    let has_rw = ops.iter().any(|o| o.0 == 7);
+    let has_close = ops.iter().any(|o| o.0 == 8);
+    let cell = if single { "SingleLruPageCache".to_string() }
+               else if has_close { "LruPageCache/close_file".to_string() }
+               else if has_rw { "LruPageCache/rewrite-then-invalidate_range".to_string() }
+               else if has_ow { "LruPageCache/overwrite+invalidate".to_string() }
+               else { format!("LruPageCache/{}", ["balanced", "performance", "memory", "security"][(preset % 4) as usize]) };
     cx.sum.eval(&cell, &format!("pc {} {} {} {:?} {:?}", single, preset, capbytes, files, ops), ops.len() >= 3);
     let cj = json!({"cell": "pc", "single": single, "preset": preset, "capbytes": capbytes,
                     "files": files.iter().map(|f| json!([f.0, f.1])).collect::<Vec<_>>(), "ops": pops_json(ops)});
@@ -428,63 +450,115 @@ fn pc_history(cx: &mut Ctx, single: bool, preset: u64, capbytes: usize, files: &
         contents.push(data);
         paths.push(p);
     }
+    // per file: byte index -> values the byte held since the cache was last told about it
+    let mut alts: Vec<HashMap<u64, Vec<u8>>> = files.iter().map(|_| HashMap::new()).collect();
+    let mut closed: Vec<bool> = files.iter().map(|_| false).collect();
     let mut fails: Vec<String> = vec![];
-    let mut mops: Vec<String> = vec![]; // model ops
+    let mut mops: Vec<String> = vec![]; // model ops, encoding of Model.pc_step_h
     let mut mobs: Vec<String> = vec![];
-    let mut modelled = !single && files.len() <= 2;
-    let mut suspicious_short = false;
+    let mut xops: Vec<String> = vec![]; // model ops, encoding of ModelInval.x_step_h / s_step_h
+    let mut xobs: Vec<String> = vec![];
+    let mut modelled = files.len() <= 2;
+    let legacy = !single && !has_rw && !has_close;
+    let size_deterministic = capbytes / PAGE_SIZE >= 32;   // nothing is evicted, so the page count does not depend on which page a tie evicts
+    let unit = coq_n_list(digest(&[]));
     for &(c, fi, a, b) in ops {
         let fi = (fi as usize) % files.len().max(1);
         let fid = fids[fi];
         match c {
             0 | 4 | 5 => {
-                let want: Vec<u8> = { let d = &contents[fi]; let s = (a as usize).min(d.len()); let e = (a as usize).saturating_add(b as usize).min(d.len()); d[s..e].to_vec() };
+                // a closed id has no underlying file: the property says nothing about absurd requests on it (the code does not clamp them)
+                if closed[fi] && (a >= 1 << 40 || b >= 1 << 22) { continue; }
+                let want: Vec<u8> = if closed[fi] { vec![] } else { let d = &contents[fi]; let s = (a as usize).min(d.len()); let e = (a as usize).saturating_add(b as usize).min(d.len()); d[s..e].to_vec() };
                 match guarded(|| cache.read(fid, a, b as usize, c)) {
                     Ok(Ok(got)) => {
-                        if got != want {
-                            if got.len() < want.len() && want.starts_with(&got) { suspicious_short = true; }
-                            fails.push(format!("read(file {} of {} bytes, offset {}, length {}) returned {} bytes, the file has {} in that range{}", fi, contents[fi].len(), a, b, got.len(), want.len(),
-                                if got.len() == want.len() { " (different bytes)" } else { "" }));
+                        let base = (a as usize).min(contents[fi].len()) as u64;
+                        let fresh = got.len() == want.len() && got.iter().enumerate().all(|(i, &g)| g == want[i] || alts[fi].get(&(base + i as u64)).map_or(false, |v| v.contains(&g)));
+                        if !fresh {
+                            fails.push(if closed[fi] { format!("read(closed file {}, offset {}, length {}) returned {} bytes", fi, a, b, got.len()) }
+                                       else { format!("read(file {} of {} bytes, offset {}, length {}) returned {} bytes, the file has {} in that range{}", fi, contents[fi].len(), a, b, got.len(), want.len(),
+                                if got.len() == want.len() { " (different bytes)" } else { "" }) });
                         }
-                        if c == 4 { mops.push(format!("(1, {}, {}, {})", fid, a + b, b)); mobs.push(coq_n_list(digest(&[]))); }
+                        if c == 4 { mops.push(format!("(1, {}, {}, {})", fid, a + b, b)); mobs.push(unit.clone()); }
                         mops.push(format!("(0, {}, {}, {})", fid, a, b));
                         mobs.push(coq_n_list(digest(&got)));
+                        if single {
+                            if c == 4 { xops.push(format!("(1, {}, {}, {})", fid, a + b, b)); xobs.push(unit.clone()); }
+                            xops.push(format!("({}, {}, {}, {})", if c == 5 { 8 } else { 0 }, fid, a, b));
+                        } else { xops.push(format!("({}, {}, {}, {})", if c == 4 { 7 } else { 0 }, fid, a, b)); }
+                        xobs.push(coq_n_list(digest(&got)));
                     }
-                    Ok(Err(e)) => { fails.push(format!("read(offset {}, length {}) failed: {}", a, b, e)); modelled = false; }
+                    Ok(Err(e)) => { if !closed[fi] { fails.push(format!("read(offset {}, length {}) failed: {}", a, b, e)); } modelled = false; }
                     Err(p) => { fails.push(format!("read(offset {}, length {}) panicked: {}", a, b, p)); modelled = false; }
                 }
             }
             1 => { match guarded(|| cache.prefetch(fid, a, b as usize)) { Ok(Ok(())) => {}, Ok(Err(e)) => { fails.push(format!("prefetch failed: {}", e)); modelled = false; } Err(p) => { fails.push(format!("prefetch panicked: {}", p)); modelled = false; } }
-                   mops.push(format!("(1, {}, {}, {})", fid, a, b)); mobs.push(coq_n_list(digest(&[]))); }
-            2 => { match guarded(|| cache.inv_page(fid, a as u32)) { Ok(Ok(())) => {}, Ok(Err(e)) => { fails.push(format!("invalidate_page failed: {}", e)); modelled = false; } Err(p) => { fails.push(format!("invalidate_page panicked: {}", p)); modelled = false; } }
-                   mops.push(format!("(2, {}, {}, 0)", fid, a)); mobs.push(coq_n_list(digest(&[]))); }
-            3 => { match guarded(|| cache.inv_range(fid, a, b as usize)) { Ok(Ok(())) => {}, Ok(Err(e)) => { fails.push(format!("invalidate_range failed: {}", e)); modelled = false; } Err(p) => { fails.push(format!("invalidate_range panicked: {}", p)); modelled = false; } }
-                   mops.push(format!("(3, {}, {}, {})", fid, a, b)); mobs.push(coq_n_list(digest(&[]))); }
-            _ => {
-                // overwrite [a, a+b) inside the file (same size), then the explicit invalidation the property speaks of
+                   mops.push(format!("(1, {}, {}, {})", fid, a, b)); mobs.push(unit.clone());
+                   xops.push(format!("(1, {}, {}, {})", fid, a, b)); xobs.push(unit.clone()); }
+            2 => { match guarded(|| cache.inv_page(fid, a as u32)) { Ok(Ok(())) => { let lo = a * PAGE_SIZE as u64; alts[fi].retain(|&i, _| !(i >= lo && i < lo + PAGE_SIZE as u64)); }, Ok(Err(e)) => { fails.push(format!("invalidate_page failed: {}", e)); modelled = false; } Err(p) => { fails.push(format!("invalidate_page panicked: {}", p)); modelled = false; } }
+                   mops.push(format!("(2, {}, {}, 0)", fid, a)); mobs.push(unit.clone());
+                   xops.push(format!("(2, {}, {}, 0)", fid, a)); xobs.push(unit.clone()); }
+            3 => { match guarded(|| cache.inv_range(fid, a, b as usize)) { Ok(Ok(())) => { alts[fi].retain(|&i, _| !(i >= a && (i as u128) < a as u128 + b as u128)); }, Ok(Err(e)) => { fails.push(format!("invalidate_range failed: {}", e)); modelled = false; } Err(p) => { fails.push(format!("invalidate_range panicked: {}", p)); modelled = false; } }
+                   mops.push(format!("(3, {}, {}, {})", fid, a, b)); mobs.push(unit.clone());
+                   xops.push(format!("(3, {}, {}, {})", fid, a, b)); xobs.push(unit.clone()); }
+            6 | 7 => {
+                // rewrite [a, a+b) inside the file (same size); 6: then the explicit invalidation the property speaks of
+                if closed[fi] { continue; }
                 let d = &mut contents[fi];
                 let s = (a as usize).min(d.len()); let e = (a as usize).saturating_add(b as usize).min(d.len());
                 if s < e {
-                    for (i, x) in d[s..e].iter_mut().enumerate() { *x = x.wrapping_mul(3).wrapping_add(i as u8).wrapping_add(101); }
+                    for (i, x) in d[s..e].iter_mut().enumerate() { alts[fi].entry((s + i) as u64).or_default().push(*x); *x = x.wrapping_mul(3).wrapping_add(i as u8).wrapping_add(101); }
                     std::fs::write(&paths[fi], &*d).expect("rewrite test file");
-                    match guarded(|| cache.inv_range(fid, s as u64, e - s)) { Ok(Ok(())) => {}, Ok(Err(er)) => { fails.push(format!("invalidate_range failed: {}", er)); modelled = false; } Err(p) => { fails.push(format!("invalidate_range panicked: {}", p)); modelled = false; } }
-                    mops.push(format!("(4, {}, {}, {})", fid, s, e - s)); mobs.push(coq_n_list(digest(&[])));
+                    if c == 6 {
+                        match guarded(|| cache.inv_range(fid, s as u64, e - s)) { Ok(Ok(())) => { alts[fi].retain(|&i, _| !(i >= s as u64 && i < e as u64)); }, Ok(Err(er)) => { fails.push(format!("invalidate_range failed: {}", er)); modelled = false; } Err(p) => { fails.push(format!("invalidate_range panicked: {}", p)); modelled = false; } }
+                        mops.push(format!("(4, {}, {}, {})", fid, s, e - s)); mobs.push(unit.clone());
+                    }
+                    xops.push(format!("({}, {}, {}, {})", if c == 6 { 4 } else { 5 }, fid, s, e - s)); xobs.push(unit.clone());
+                }
+            }
+            8 => {
+                match guarded(|| cache.close(fid)) {
+                    Ok(r) => {
+                        if r.is_err() && !closed[fi] { fails.push(format!("close_file(file {}) failed: {:?}", fi, r)); }
+                        if r.is_ok() { closed[fi] = true; alts[fi].clear(); }
+                        xops.push(format!("(6, {}, 0, 0)", fid)); xobs.push(coq_n_list(digest(&[r.is_ok() as u8])));
+                    }
+                    Err(p) => { fails.push(format!("close_file panicked: {}", p)); modelled = false; }
+                }
+            }
+            _ => {
+                if let Pc::Single(sc) = &cache {
+                    match guarded(|| (sc.size(), sc.capacity())) {
+                        Ok((n, cap)) => {
+                            if n > (cap / PAGE_SIZE).max(1) { fails.push(format!("size() = {} pages, capacity {} bytes", n, cap)); }
+                            if size_deterministic { xops.push("(9, 0, 0, 0)".to_string()); xobs.push(coq_n_list(digest_vals(&[n as u128]))); }
+                        }
+                        Err(p) => { fails.push(format!("size() panicked: {}", p)); modelled = false; }
+                    }
                 }
             }
         }
     }
     for p in &paths { let _ = std::fs::remove_file(p); }
-    let _ = suspicious_short;
     if let Some(f) = fails.first() { cx.sum.fail(&cell, None, cj.clone(), f); }
-    if single { cx.sum.cell_status(&cell, "S-only"); }
-    if modelled && (force || cx.n_pc < cx.budget_pc) {
-        cx.n_pc += 1;
-        let fs = format!("[{}]", files.iter().zip(fids.iter()).map(|((s, l), f)| format!("({}, ({}, {}))", f, s, l)).collect::<Vec<_>>().join("; "));
-        cx.terms[2].push((format!("CPc {} {} {} [{}] [{}]", PAGE_SIZE, pc_config(preset, capbytes).capacity, fs, mops.join("; "), mobs.join("; ")), cj));
+    if !modelled { return; }
+    let fs = format!("[{}]", files.iter().zip(fids.iter()).map(|((s, l), f)| format!("({}, ({}, {}))", f, s, l)).collect::<Vec<_>>().join("; "));
+    if legacy {
+        if force || cx.n_pc < cx.budget_pc {
+            cx.n_pc += 1;
+            cx.terms[2].push((format!("CPc {} {} {} [{}] [{}]", PAGE_SIZE, pc_config(preset, capbytes).capacity, fs, mops.join("; "), mobs.join("; ")), cj));
+        }
+    } else {
+        let t = if single { T_PS } else { T_PX };
+        if force || cx.n_x[t] < cx.budget_x[t] {
+            cx.n_x[t] += 1;
+            cx.terms[t].push((format!("{} {} {} {} [{}] [{}]", if single { "CPs" } else { "CPx" }, PAGE_SIZE, pc_config(preset, capbytes).capacity, fs, xops.join("; "), xobs.join("; ")), cj));
+        }
     }
 }
 
-fn gen_pops(r: &mut Rng, files: &[(u64, u64)], n: usize, with_overwrite: bool) -> Vec<POp> {
+/// extra: 0 the operations of the first version | 1 also rewrite-without-invalidation (7) and close_file (8) | 2 also size() (Single)
+fn gen_pops(r: &mut Rng, files: &[(u64, u64)], n: usize, with_overwrite: bool, extra: u8) -> Vec<POp> {
     let ps = PAGE_SIZE as u64;
     let mut ops = vec![];
     for _ in 0..n {
@@ -523,6 +597,21 @@ fn gen_pops(r: &mut Rng, files: &[(u64, u64)], n: usize, with_overwrite: bool) -
                 _ => (off, 64 * 1024 * 1024),
             };
             ops.push((if r.chance(1, 4) { 5 } else { 0 }, fi, o, l));
+            continue;
+        }
+        if extra > 0 && r.chance(1, 7) {
+            match r.below(if extra == 2 { 12 } else { 10 }) {
+                0 => ops.push((8, fi, 0, 0)),
+                1..=6 => { ops.push((7, fi, off, len.min(2 * ps)));
+                           // the cache is told later, about a range that covers the rewrite, only part of it, or another one
+                           if r.chance(1, 2) { ops.push((0, fi, off.saturating_sub(r.below(10)), len.min(2 * ps) + r.below(20))); }
+                           match r.below(4) { 0 => ops.push((3, fi, off.saturating_sub(r.below(ps)), len.min(2 * ps) + ps)),
+                                              1 => ops.push((3, fi, off, len.min(2 * ps))),
+                                              2 => ops.push((3, fi, off + len.min(2 * ps) / 2, len)),
+                                              _ => {} } }
+                7..=9 => ops.push((0, fi, 0, flen)),
+                _ => ops.push((9, 0, 0, 0)),
+            }
             continue;
         }
         let c = r.below(100);
@@ -714,7 +803,8 @@ pub fn run(args: &Args) {
         sum: Summary::new("C17", "LruMap / ConcurrentLruMap: every get/put/remove/contains/clear/len history of <= 4 (quick) or 5 (thorough) operations over 3 keys at capacity 1 and 2, plus generated histories of up to 120 operations over cap+1..cap+3 keys at capacities 1..4 (eviction on most puts), 4 config presets, shard counts 1,2,4,8, three routing strategies, a recording eviction callback; each result, the callback invocations of each step, len and final retrievability compared with a time-stamped reference and with the Coq model. Page cache: files of 0, 1, PAGE-1, PAGE, PAGE+1, 2*PAGE+100, 3*PAGE+17, 5*PAGE bytes, cache of 0..3 pages and large, reads at offsets/lengths at page boundaries, inside the short last page, straddling, beyond EOF, with prefetch, invalidate_page/range, overwrite+invalidate, read_batch, read_with_prefetch; bytes compared with the file and (digest) with the Coq model. CachedBlobStore: put/get/remove/flush/prefetch/enable/disable histories for 3 write strategies with own and shared cache, compared with the wrapped store. non-trivial = more puts than capacity / history of >= 3 operations"),
         shards: CoqShards::new(HEADER, 75),
         budget_lru: if th { 6000 } else { 700 }, budget_cmap: if th { 2000 } else { 250 }, budget_pc: if th { 1500 } else { 220 },
-        terms: [vec![], vec![], vec![]], n_lru: 0, n_cmap: 0, n_pc: 0, tmp: tmp.clone(), fileno: 0,
+        terms: vec![vec![]; 8], n_lru: 0, n_cmap: 0, n_pc: 0, tmp: tmp.clone(), fileno: 0,
+        budget_x: if th { [0, 0, 0, 600, 400, 600, 400, 200] } else { [0, 0, 0, 90, 50, 90, 50, 30] }, n_x: [0; 8],
     };
     let mut rng = Rng::new(args.seed);
     if let Some(f) = &args.replay {
@@ -774,7 +864,7 @@ pub fn run(args: &Args) {
         let capbytes = *rng.pick(&[ps as usize, 2 * ps as usize, 2 * ps as usize, 3 * ps as usize, ps as usize - 1, 1, 64 * ps as usize, 0]);
         let n = rng.range(3, 14) as usize;
         let overwrite = rng.chance(1, 4);
-        let ops = gen_pops(&mut rng, &files, n, overwrite);
+        let ops = gen_pops(&mut rng, &files, n, overwrite, 0);
         if i < 1 { cx.sum.sample(json!({"page_cache": {"files": files.iter().map(|f| f.1).collect::<Vec<_>>(), "capbytes": capbytes, "ops": pops_json(&ops[..ops.len().min(8)])}})); }
         pc_history(&mut cx, rng.chance(1, 6), rng.below(4), capbytes, &files, &ops, false);
     }
@@ -801,6 +891,31 @@ pub fn run(args: &Args) {
     }
     // the confirmed short-last-page witnesses, always
     pc_history(&mut cx, false, 0, 2 * ps as usize, &[(3, 2 * ps + 100)], &[(0, 0, 2 * ps, 200), (0, 0, 2 * ps - 92, 300), (0, 0, 0, 3 * ps)], true);
+    // extension: somebody else rewrites the file and the cache is told later (or not at all, or about another range),
+    // close_file, read_with_prefetch as one call, SingleLruPageCache with a used buffer and size()
+    let n_px = if th { 3000 } else { 320 };
+    for i in 0..n_px {
+        let single = i % 3 == 2;
+        let nf = if rng.chance(1, 3) { 2 } else { 1 };
+        let files: Vec<(u64, u64)> = (0..nf).map(|_| (rng.below(200), if rng.chance(1, 10) { rng.below(4 * ps) } else { *rng.pick(&sizes) })).collect();
+        // every page resident (nothing reloaded by accident) in two thirds of the histories
+        let capbytes = *rng.pick(&[64 * ps as usize, 64 * ps as usize, 32 * ps as usize, 16 * ps as usize, 2 * ps as usize, 3 * ps as usize, ps as usize, 0]);
+        let mut ops: Vec<POp> = vec![];
+        if rng.chance(2, 3) { for f in 0..nf { ops.push((0, f as u64, 0, files[f].1)); } }
+        let (n, ow) = (rng.range(3, 12) as usize, rng.chance(1, 3));
+        ops.extend(gen_pops(&mut rng, &files, n, ow, if single { 2 } else { 1 }));
+        if !single && !ops.iter().any(|o| o.0 == 7 || o.0 == 8) { ops.push((7, 0, rng.below(files[0].1 + 1), 1 + rng.below(200))); ops.push((0, 0, 0, files[0].1)); }
+        pc_history(&mut cx, single, rng.below(4), capbytes, &files, &ops, false);
+    }
+    // the stale-last-page shape: all pages resident, an unaligned rewrite over a page boundary, the invalidation of exactly that range
+    // as a separate call, then reads of the last page touched
+    for i in 0..(if th { 400 } else { 40 }) {
+        let flen = *rng.pick(&[2 * ps + 100, 3 * ps + 17, 5 * ps, 4 * ps - 1]);
+        let p = rng.range(1, flen / ps);
+        let (off, len) = match rng.below(3) { 0 => (p * ps - 1 - rng.below(60), 2 + rng.below(120)), 1 => (p * ps - 1, 2), _ => (p * ps - rng.range(1, ps - 1), ps + rng.below(ps)) };
+        let ops: Vec<POp> = vec![(0, 0, 0, flen), (7, 0, off, len), (3, 0, off, len), (0, 0, off.saturating_sub(3), len + 6), (5, 0, off + len - 1, 1), (8, 0, 0, 0), (0, 0, 0, flen), (8, 0, 0, 0)];
+        pc_history(&mut cx, i % 4 == 3, rng.below(4), 64 * ps as usize, &[(rng.below(200), flen)], &ops, i < 12);
+    }
     // cached blob store
     let n_blob = if th { 3000 } else { 300 };
     for _ in 0..n_blob {
